@@ -23,7 +23,7 @@ import json, os, shutil, subprocess
 import common
 
 PID = "C19"
-GEN = ["ErrCodes"]
+GEN = ["ErrCodes", "ScannerCopy"]
 LEAN_MODULE = "XV.Props.C19"
 THEOREMS = ["XV.Props.C19." + t for t in (
     "expansion_terminates", "expansion_terminates_any_budget", "expansion_correct", "expansion_ok_iff",
@@ -31,10 +31,17 @@ THEOREMS = ["XV.Props.C19." + t for t in (
     "limit_enforced", "within_limit_unaffected", "within_limit_unaffected_general", "limit_and_recursion_errors_are_fatal",
     "fetch_permitted", "no_fetch_when_disabled", "no_open_in_trace_when_disabled", "gate_scanner_ignores_dtd",
     "gate_load_external_dtd", "gate_load_schema", "gate_do_schema", "gate_disable_default", "gates_spec",
-    "resolver_first", "resolver_first_sax", "resolver_source_used")] + ["XV.Props.C19Uri." + t for t in (
+    "resolver_first", "resolver_first_sax", "resolver_source_used",
+    "settings_survive", "policy_setters_copied", "every_setter_copied", "policy_survives_scanner_switch")] + ["XV.Props.C19Uri." + t for t in (
     "step6e_complete", "remove_dots_idempotent", "zipper_eq_iterated_leftmost", "weave_eq_rfc", "resolve_rfc2396",
     "seturl_rfc2396", "xmluri_resolve_rfc2396")]
-RULE = ("gate tier: random file trees (DTD family: external subset + internal subset with external general/parameter entities "
+RULE = ("ORDERED configuration histories: every case sets the policy switches in a fixed order with the scanner switch "
+        "(useScanner / fgXercesScannerName) inserted before step sp = 0..9 and optionally a first switch to another scanner "
+        "(pre), on XercesDOMParser, SAXParser and SAX2XMLReader; the model's effective policy is the last value set "
+        "(policy_survives_scanner_switch). External general/parameter entities are declared directly or through the replacement "
+        "text of internal parameter entities (nested 1-2 levels) in the internal subset, external subsets and external PEs in "
+        "other directories, with decoy files of the same name where a wrong base would look. "
+        "gate tier: random file trees (DTD family: external subset + internal subset with external general/parameter entities "
         "nested up to 3 levels in 5 directories; schema family: xsi:schemaLocation / noNamespaceSchemaLocation with "
         "import/include/redefine chains up to depth 3, optionally a DOCTYPE inside schema documents; references spelled "
         "relative, ./, detour/../, absolute, file://, http://example.invalid, missing files) x random configurations over "
@@ -46,7 +53,10 @@ RULE = ("gate tier: random file trees (DTD family: external subset + internal su
         "literals) x limits k-1, k, k+1, k-3, none; predefined entities x 4 scanners; cycles of length 1..6 x 5 sites x "
         "prefix 0/2 x 5 limits; exponential tables (4 levels x 8) x 5 sites x limits 100/1000. uri tier: see c19_uri.py. "
         "evaluations = number of (input, configuration) pairs run on the real library")
-ASSUMPTIONS = ["exit-on-first-fatal-error (the default): a fatal error ends the parse; the model stops there",
+ASSUMPTIONS = ["skipDTDValidation and standardUriConformant are covered by the copy-list theorems (policy_setters_copied / "
+               "every_setter_copied over the regenerated XMLScanner::setParseSettings) only, not by the correspondence",
+               "an internal parameter entity carrying declarations is declared and referenced in the same external entity",
+               "exit-on-first-fatal-error (the default): a fatal error ends the parse; the model stops there",
                "general and parameter entities have disjoint names in the generated documents (ReaderMgr::pushReader compares names only)",
                "entity references to undeclared entities are not generated for the IG/DG scanners (WF/SG: every non-predefined reference is EntityNotFound)",
                "SGXMLScanner forces fDoSchema/fDoNamespaces on: choosing it means schema processing, fgXercesSchema is not a gate there",
@@ -104,12 +114,15 @@ class Tree:
         self.main = None
         self.lits = {}         # literal system id -> (container path, ctx, site, target key)   (literals are unique)
         self.unreach = set()   # http URLs referenced
+        self.decoys = {}       # path -> text: same file name as a referenced entity, in a directory a WRONG base would lead to
 
 def enc_dtd(items):
     out = []
     for it in items:
         if it[0] in "gp":
             out.append("%s:%s:%s:%s" % (it[0], hexs(it[1]), hexs(it[2]), hexs(it[3])))
+        elif it[0] == "q":
+            out.append("q:%s:%s" % (hexs(it[1]), hexs(enc_dtd(it[2]))))
         else:
             out.append("r:" + hexs(it[1]))
     return ",".join(out) or "-"
@@ -153,10 +166,25 @@ def enc_content(r):
 def ext_id(sys, pub):
     return ('PUBLIC "%s" "%s"' % (pub, sys)) if pub else ('SYSTEM "%s"' % sys)
 
+def render_inner(items):
+    """DTD text inside the literal of an internal parameter entity: single quotes, % written as a character reference"""
+    out = []
+    for it in items:
+        xid = ("PUBLIC '%s' '%s'" % (it[3], it[2])) if it[0] in "gp" and it[3] else ("SYSTEM '%s'" % it[2]) if it[0] in "gp" else ""
+        if it[0] == "g":
+            out.append("<!ENTITY %s %s>" % (it[1], xid))
+        elif it[0] == "p":
+            out.append("<!ENTITY &#37; %s %s>" % (it[1], xid))
+        elif it[0] == "r":
+            out.append("&#37;%s;" % it[1])
+    return " ".join(out)
+
 def render_dtd_items(items):
     out = []
     for it in items:
-        if it[0] == "g":
+        if it[0] == "q":
+            out.append('<!ENTITY %% %s "%s">' % (it[1], render_inner(it[2])))
+        elif it[0] == "g":
             out.append("<!ENTITY %s %s>" % (it[1], ext_id(it[2], it[3])))
         elif it[0] == "p":
             out.append("<!ENTITY %% %s %s>" % (it[1], ext_id(it[2], it[3])))
@@ -230,10 +258,10 @@ class TreeGen:
         d = self.r.choice(DIRS)
         return os.path.normpath(os.path.join(self.root, d, "f%d.%s" % (self.n, ext)))
 
-    def literal(self, frm, to, allow_http=True):
+    def literal(self, frm, to, allow_http=True, force_rel=False):
         """a system identifier written in `frm` (absolute path of the referrer) designating `to`"""
         r = self.r
-        k = r.below(100)
+        k = r.below(70) if force_rel else r.below(100)
         rel = os.path.relpath(to, os.path.dirname(frm))
         if k < 45:
             lit = rel
@@ -248,14 +276,14 @@ class TreeGen:
             lit = "file://" + to
         return lit
 
-    def ref(self, frm_res, ctx, site, to_path, http=False, missing=False):
+    def ref(self, frm_res, ctx, site, to_path, http=False, missing=False, force_rel=False):
         if http:
             self.n += 1
             lit = "http://example.invalid/t%d/n%d.x" % (self.idx, self.n)
             self.t.unreach.add(lit)
             self.t.lits[lit] = (frm_res.path, ctx, site, lit)
             return lit
-        lit = self.literal(frm_res.path, to_path)
+        lit = self.literal(frm_res.path, to_path, force_rel=force_rel)
         while lit in self.t.lits:      # same target referenced twice from the same place: vary the spelling
             lit = "./" + lit if not lit.startswith(("/", "file:")) else "file://" + lit if lit.startswith("/") else lit + ""
             if lit in self.t.lits:
@@ -279,27 +307,51 @@ class TreeGen:
         """declarations + PE references inside `holder` (a doc's internal subset or a dtd resource)"""
         r = self.r
         items = []
+        def emit(decl, target):
+            """the declaration either stands in `holder` directly or is produced by the replacement text of an internal
+            parameter entity (nested 1-2 levels) declared and referenced in `holder`: its base is still holder's URI"""
+            if target is not None and r.chance(2, 5):
+                self.nip = getattr(self, "nip", 0) + 1
+                ip = "ip%d" % self.nip
+                items.append(("q", ip, [decl]))
+                if r.chance(1, 3):
+                    self.nip += 1
+                    ip2 = "ip%d" % self.nip
+                    items.append(("q", ip2, [("r", ip)]))
+                    ip = ip2
+                items.append(("r", ip))
+                # the same file name where a wrong base (document, sibling directory) would look for it
+                for d in (self.root, os.path.join(self.root, "a"), os.path.join(self.root, "c")):
+                    dp = os.path.join(d, os.path.basename(target))
+                    if dp != target and dp not in self.t.res:
+                        self.t.decoys[dp] = "DECOY" if decl[0] == "g" else "<!-- decoy -->"
+            else:
+                items.append(decl)
         for _ in range(r.below(3) + (1 if depth == 0 else 0)):
             k = r.below(10)
             pub = "-//XV//P%d" % self.n if r.chance(1, 4) else ""
+            wrap = r.chance(2, 5)
             if k < 5:
                 name = "g%d" % (len(gnames) + 1)
                 http = r.chance(1, 14)
                 if http:
                     lit = self.ref(holder, ctx, "generalEntity", None, http=True)
+                    items.append(("g", name, lit, pub))
                 else:
                     ent = self.gen_ent(ctx, depth, list(gnames))
                     if r.chance(1, 16):
                         del self.t.res[ent.path]          # missing file
-                    lit = self.ref(holder, ctx, "generalEntity", ent.path)
+                    lit = self.ref(holder, ctx, "generalEntity", ent.path, force_rel=wrap)
+                    if wrap: emit(("g", name, lit, pub), ent.path)
+                    else: items.append(("g", name, lit, pub))
                 gnames.append(name)
-                items.append(("g", name, lit, pub))
             elif depth < 3:
                 name = "p%d" % (len(pnames) + 1)
                 pe = self.add(Res("dtd", self.newpath("pe")))
-                lit = self.ref(holder, ctx, "paramEntity", pe.path)
+                lit = self.ref(holder, ctx, "paramEntity", pe.path, force_rel=wrap)
                 pnames.append(name)
-                items.append(("p", name, lit, pub))
+                if wrap: emit(("p", name, lit, pub), pe.path)
+                else: items.append(("p", name, lit, pub))
                 if r.chance(5, 6):
                     items.append(("r", name))
                 pe.dtd = self.gen_dtd_items(pe, ctx, depth + 1, gnames, pnames)
@@ -386,6 +438,11 @@ def materialise(t):
         os.makedirs(os.path.dirname(r.path), exist_ok=True)
         with open(r.path, "w") as f:
             f.write(render(r))
+    for pth, txt in t.decoys.items():
+        if pth not in t.res:
+            os.makedirs(os.path.dirname(pth), exist_ok=True)
+            with open(pth, "w") as f:
+                f.write(txt)
 
 SCANNERS = ["IG", "DG", "WF", "SG"]
 def gen_cfgs(r, n):
@@ -393,11 +450,14 @@ def gen_cfgs(r, n):
     for _ in range(n):
         out.append({"sc": SCANNERS[r.below(4)] if r.chance(2, 3) else "IG", "dd": r.below(2), "ld": r.below(2), "vs": r.choice("NAY"),
                     "ls": 1 if r.chance(3, 4) else 0, "ds": 1 if r.chance(3, 4) else 0, "ns": 1,
-                    "res": r.choice(["none", "xml", "xml", "xml", "sax"]), "api": r.choice(["sax2", "dom"])})
+                    "res": r.choice(["none", "xml", "xml", "xml", "sax"]), "api": r.choice(["sax2", "dom", "sax1"]),
+                    # ordered configuration history: the scanner switch happens before policy step sp (0 = first, 9 = after
+                    # everything), optionally preceded by a switch to another scanner
+                    "sp": r.choice([0, 0, 9, 9, 8, 6, 5, r.below(10)]), "pre": 1 if r.chance(1, 4) else 0})
     return out
 
 def cfg_str(c):
-    return ",".join("%s=%s" % (k, c[k]) for k in ("sc", "dd", "ld", "vs", "ls", "ds", "ns", "res", "api"))
+    return ",".join("%s=%s" % (k, c.get(k, 0)) for k in ("sc", "dd", "ld", "vs", "ls", "ds", "ns", "res", "api", "sp", "pre"))
 
 def gate_case(t, cfg, main_spelling, supply):
     """supply: list of (literal, path, bufId)"""
@@ -636,7 +696,9 @@ def run_gate(ctx, ntrees=None, ncfg=None):
             pass
 
 def replay_of(t, cfg, sup, ml, hl, m, i):
-    return {"op": "G", "cfg": cfg_str(cfg), "tree": {os.path.relpath(p, t.root): render(r) for p, r in t.res.items()},
+    tree = {os.path.relpath(p, t.root): render(r) for p, r in t.res.items()}
+    tree.update({os.path.relpath(p, t.root): txt for p, txt in t.decoys.items() if p not in t.res})
+    return {"op": "G", "cfg": cfg_str(cfg), "tree": tree,
             "root": t.root, "main": os.path.relpath(t.main.path, t.root), "supply": sup, "model_line": ml, "impl_line": hl,
             "model": m, "impl": i}
 
@@ -674,6 +736,55 @@ def witness_cases(root):
         cfg = {"sc": sc, "dd": 0, "ld": 1, "vs": "N", "ls": 1, "ds": 0, "ns": 1, "res": "none", "api": api}
         m, h = gate_case(t, cfg, main.path, [])
         out.append((t, cfg, [], m, h))
+    # W3: external entities declared through the replacement text of an internal parameter entity, in an external subset
+    # that lives in another directory; the same file name exists next to the document with other content
+    t = Tree(os.path.join(root, "w3"))
+    main = Res("doc", os.path.join(t.root, "main.xml")); t.res[main.path] = main; t.main = main
+    ext = Res("dtd", os.path.join(t.root, "dtd", "ext.dtd")); t.res[ext.path] = ext
+    e1 = Res("ent", os.path.join(t.root, "dtd", "e.ent")); t.res[e1.path] = e1
+    e2 = Res("ent", os.path.join(t.root, "dtd", "d.ent")); t.res[e2.path] = e2
+    pe = Res("dtd", os.path.join(t.root, "dtd", "sub", "p.pe")); t.res[pe.path] = pe
+    e3 = Res("ent", os.path.join(t.root, "dtd", "sub", "f.ent")); t.res[e3.path] = e3
+    main.doctype = ("dtd/ext.dtd", "", [])
+    main.body = [("e", "viaPE"), ("e", "direct"), ("e", "viaPE2")]
+    ext.dtd = [("q", "decls", [("g", "viaPE", "e.ent", "")]), ("r", "decls"), ("g", "direct", "d.ent", ""),
+               ("q", "d1", [("p", "xp", "sub/p.pe", "-//XV//W3")]), ("q", "d2", [("r", "d1")]), ("r", "d2"), ("r", "xp")]
+    pe.dtd = [("q", "d3", [("g", "viaPE2", "f.ent", "")]), ("r", "d3")]
+    t.lits = {"dtd/ext.dtd": (main.path, "I", "extSubset", ext.path), "e.ent": (ext.path, "I", "generalEntity", e1.path),
+              "d.ent": (ext.path, "I", "generalEntity", e2.path), "sub/p.pe": (ext.path, "I", "paramEntity", pe.path),
+              "f.ent": (pe.path, "I", "generalEntity", e3.path)}
+    for d in (t.root, os.path.join(t.root, "dtd")):
+        for n in ("e.ent", "f.ent"):
+            if os.path.join(d, n) not in t.res:
+                t.decoys[os.path.join(d, n)] = "DECOY"
+    t.decoys[os.path.join(t.root, "sub", "p.pe")] = "<!-- decoy -->"
+    materialise(t)
+    for sc, api, res in (("IG", "dom", "xml"), ("DG", "sax2", "xml"), ("IG", "sax1", "none"), ("DG", "dom", "sax")):
+        cfg = {"sc": sc, "dd": 0, "ld": 1, "vs": "N", "ls": 1, "ds": 0, "ns": 1, "res": res, "api": api, "sp": 0, "pre": 0}
+        m, h = gate_case(t, cfg, main.path, [])
+        out.append((t, cfg, [], m, h))
+    # W4: every no-fetch policy set BEFORE the scanner is selected (and with a scanner switch on either side)
+    t = Tree(os.path.join(root, "w4"))
+    main = Res("doc", os.path.join(t.root, "main.xml")); t.res[main.path] = main; t.main = main
+    ext = Res("dtd", os.path.join(t.root, "ext.dtd")); t.res[ext.path] = ext
+    e1 = Res("ent", os.path.join(t.root, "secret.ent")); t.res[e1.path] = e1
+    sch = Res("schema", os.path.join(t.root, "s.xsd")); t.res[sch.path] = sch
+    main.doctype = ("ext.dtd", "", [("g", "x", "secret.ent", "")])
+    main.body = [("n", "s.xsd"), ("e", "x")]
+    t.lits = {"ext.dtd": (main.path, "I", "extSubset", ext.path), "secret.ent": (main.path, "I", "generalEntity", e1.path),
+              "s.xsd": (main.path, "I", "noNsSchemaLocation", sch.path)}
+    materialise(t)
+    k = 0
+    for sc in ("IG", "DG"):
+        for api in ("dom", "sax1", "sax2"):
+            for sp, pre in ((9, 0), (0, 0), (6, 1), (8, 0)):
+                for dd, ld, ls, res in ((1, 1, 1, "none"), (1, 0, 0, "xml"), (0, 0, 0, "none")):
+                    k += 1
+                    if k % 2 and sp not in (9,):
+                        continue
+                    cfg = {"sc": sc, "dd": dd, "ld": ld, "vs": "N", "ls": ls, "ds": 1, "ns": 1, "res": res, "api": api, "sp": sp, "pre": pre}
+                    m, h = gate_case(t, cfg, main.path, [])
+                    out.append((t, cfg, [], m, h))
     return out
 
 # =====================================================================================================================
@@ -755,7 +866,8 @@ def render_ent_doc(d):
 def impl_line(d, sc, api, limit):
     doc, exts = render_ent_doc(d)
     sup = ";".join("%s>%s" % (n, hexs(t)) for n, t in exts.items()) or "-"
-    cfg = "sc=%s,api=%s,ns=1,ds=0,vs=N,res=%s" % (sc, api, "xml" if exts else "none")
+    h = sum(ord(c) for c in doc) + (limit or 0)
+    cfg = "sc=%s,api=%s,ns=1,ds=0,vs=N,res=%s,sp=%d,pre=%d" % (sc, api, "xml" if exts else "none", (0, 9, 7, 6, 9, 0, 8)[h % 7], 1 if h % 5 == 0 else 0)
     return "X %s %s %s %s" % (cfg, "-" if limit is None else limit, hexs(doc), sup)
 
 class EntGen:
